@@ -359,9 +359,22 @@ class TraitInstance(TraitHandler):
         self.set_fast_validate()
         trait = object.base_trait(name)
         handler = trait.handler
-        if (handler is not self) and hasattr(handler, "item_trait"):
-            trait = handler.item_trait
-        trait.set_validate(self.fast_validate)
+        if handler is not self:
+            set_validate = getattr(handler, "set_validate", None)
+            if set_validate is not None:
+                # The outer trait is a TraitCompound. Recompute its
+                # fast_validate table now that we have updated ours.
+                set_validate()
+            else:
+                item_trait = getattr(handler, "item_trait", None)
+                if item_trait is not None and item_trait.handler is self:
+                    # The outer trait is a List trait.
+                    trait = item_trait
+                    handler = self
+                else:
+                    return
+        if handler.fast_validate is not None:
+            trait.set_validate(handler.fast_validate)
 
     def find_class(self, klass):
         module = self.module
